@@ -15,12 +15,12 @@ import SkNet.Model.Basic
 namespace SkNet.Persist
 
 inductive PyErr
-  | notFound | valueError | traversal | badFile
+  | notFound | valueError | traversal | badFile | filtered
 deriving DecidableEq, Repr
 
 def PyErr.show : PyErr → String
   | .notFound => "FileNotFoundError" | .valueError => "ValueError" | .traversal => "Exception"
-  | .badFile => "BadFile"
+  | .badFile => "BadFile" | .filtered => "FilterError"
 
 /-! ### save / load -/
 
@@ -191,16 +191,41 @@ def isWithinDirectoryPinned (cwd directory target : Chars) : Bool :=
   let t := (abspath cwd target).render
   commonPrefix d t = d
 
-/-- `safe_extract(tar, path)`: every member is checked, then `tar.extractall(path)` writes member `m` to
-    `join(path, m)`. Returns the normalised locations written. -/
+/-- the pinned `safe_extract(tar, path)`: every member name is checked, then `tar.extractall(path)` writes member
+    `m` to `join(path, m)`. Returns the normalised locations written (archives of regular files). -/
 def safeExtractWith (within : Chars → Chars → Chars → Bool) (cwd path : Chars) (members : List Chars) :
     Except PyErr (List APath) :=
   if members.all (fun m => within cwd path (joinPath path m)) then
     pure (members.map fun m => abspath cwd (joinPath path m))
   else throw .traversal
 
-def safeExtract := safeExtractWith isWithinDirectory
 def safeExtractPinned := safeExtractWith isWithinDirectoryPinned
+
+/-- where tarfile's `'data'` extraction filter puts a regular-file member: leading slashes are stripped from
+    the name, and the member is refused (`none`) unless the resulting location is the folder or below it
+    (`commonpath([realpath(join(dest, name)), dest]) == dest`; no links inside the folder: realpath = abspath). -/
+def dataFilter (cwd path m : Chars) : Option APath :=
+  let loc := abspath cwd (joinPath path (m.dropWhile (· = '/')))
+  if commonpath (abspath cwd path) loc = abspath cwd path then some loc else none
+
+/-- `tar.extractall(path, members, filter='data')` over regular-file members, in order -/
+def extractAll (cwd path : Chars) : List Chars → Except PyErr (List APath)
+  | [] => .ok []
+  | m :: ms =>
+    match dataFilter cwd path m with
+    | none => .error .filtered
+    | some loc =>
+      match extractAll cwd path ms with
+      | .ok locs => .ok (loc :: locs)
+      | .error e => .error e
+
+/-- `safe_extract(tar, path)` as repaired, on an archive of regular files: every member name is checked
+    (`is_within_directory(path, join(path, name))`), then the archive is extracted with the `'data'` filter.
+    Members that are links are outside this model: tarfile's filter decides about them at extraction time
+    (contract: nothing is created outside the folder), and the harness observes the disk. -/
+def safeExtract (cwd path : Chars) (members : List Chars) : Except PyErr (List APath) :=
+  if members.all (fun m => isWithinDirectory cwd path (joinPath path m)) then extractAll cwd path members
+  else .error .traversal
 
 /-- the location `t` is the folder `d` itself or below it (on Linux `//x` and `/x` are the same place) -/
 def Inside (d t : APath) : Prop := d.comps <+: t.comps
